@@ -267,6 +267,27 @@ def run(R):
     cont = PR.calls_matching(af, r"^std::collections::hash::set::HashSet::contains$")
     ins = PR.calls_matching(af, r"^std::collections::hash::set::HashSet::insert$")
     okset = len(cont) == 1 and len(ins) == 1
+    # `match self.values.get(v) { Some(_) => false, None => { insert(v.clone()); true } }`: the membership test spelled with get()
+    gets = PR.calls_matching(af, r"^std::collections::hash::set::HashSet::get$")
+    if not cont and len(gets) == 1 and len(ins) == 1:
+        gg = PR.discr_guard(af, gets[0], "Some")
+        arg_ok = all(any(o.kind == "arg" and o.arg == 2 for o in F.origins(af, c.args[1], depth=8)) for c in gets + ins)
+        t2 = (ins[0].func.get("res_targs") or ins[0].targs)[:1]
+        if gg is not None and gg[2] and arg_ok and t2 == [TUPLE_TY]:
+            none_ts = gg[2]
+            ins_ok = any(af.dominates(nt, ins[0].bb) for nt in none_ts)
+            rets = {}
+            for i, st_ in af.stmts():
+                if st_["k"] == "assign" and st_["pl"]["l"] == 0 and st_["rv"]["k"] == "use" and st_["rv"]["op"]["k"] == "const":
+                    arm = "dup" if af.dominates(gg[1], i) else ("new" if any(af.dominates(nt, i) for nt in none_ts) else "?")
+                    rets.setdefault(arm, set()).add(st_["rv"]["op"]["v"])
+            if ins_ok and rets.get("dup") == {"false"} and rets.get("new") == {"true"} and "?" not in rets:
+                R.ok("C08.set", "add", "get(tuple): Some -> false; None -> insert(clone) -> true; set of Vec<Value>", af.loc())
+            else:
+                R.violation("C08.set", "add|return", "DistinctValues::add (get-then-insert) returns %s / inserts under None: %s (expected false for a "
+                            "duplicate, true and an insert for a new tuple)" % ({k: sorted(v) for k, v in rets.items()}, ins_ok), [af.loc()])
+            R.assume("tuple equality/hash semantics are those of Value (decided by C16)")
+            return
     # every path through add() consults the set of seen tuples, applied to the tuple handed in
     consult = [c.bb for c in cont + ins]
     if consult:
